@@ -137,6 +137,25 @@ Definition in_rows (model_key : mkey) (where_ids : option (list Z)) (r : srow) :
   && match where_ids with None => true | Some l => mem_z (fst r) l end.
 Definition is_new (row : Z) : bool := 1000 <? row.
 
+(* ---- columns the statement's model does not know ------------------------------------------------------
+   "Updates with a map and Update write every given key, and Select/Omit narrow these sets" also when the key
+   is a column that is no field of the model (the model struct is a narrower view of the table, or the
+   statement has no model at all: Table("t").Where(..).Updates(map)): such a raw key is written exactly when it
+   is given, selected (no Select, or an item naming it) and not omitted. *)
+Definition known (s : schema) (c : string) : bool :=
+  existsb (fun f => String.eqb c (f_name f) || (has_col f && String.eqb c (f_db f))) s.
+Definition raw_names (table c : string) (it : sitem) : bool :=
+  match it with
+  | SStar => true
+  | SName n => String.eqb n c
+  | STab tbl col => String.eqb tbl table && String.eqb col c
+  | STabStar tbl => String.eqb tbl table
+  end.
+Definition raw_write (table : string) (sh : shape) (selects omits : list sitem) (p : payload) (c : string) : bool :=
+  match sh with ShMap => map_has p c | _ => false end
+  && match selects with [] => true | _ => existsb (raw_names table c) selects end
+  && negb (existsb (raw_names table c) omits).
+
 (* ---- updates: only permitted, selected columns of exactly the targeted rows; required ones did --- *)
 Definition spec_update (s : schema) (table : string) (sh : shape) (hooks : bool)
            (selects omits : list sitem) (p : payload) (rows : list Z) (cells : list cell) : bool :=
@@ -144,10 +163,20 @@ Definition spec_update (s : schema) (table : string) (sh : shape) (hooks : bool)
              mem_z (c_row x) rows
              && match field_of s (c_col x) with
                 | Some f => may_update table sh hooks selects omits p f && update_src_ok table sh hooks selects p f (c_src x)
-                | None => false
+                | None => negb (known s (c_col x)) && raw_write table sh selects omits p (c_col x)
+                          && src_eqb (c_src x) KPay
                 end) cells
   && forallb (fun r => forallb (fun f => negb (must_update table sh hooks selects omits p f)
-                                          || has_cell cells r (f_db f)) s) rows.
+                                          || has_cell cells r (f_db f)) s
+                       && forallb (fun e => negb (negb (known s (fst e)) && raw_write table sh selects omits p (fst e))
+                                            || has_cell cells r (fst e)) (snd p)) rows.
+
+(* domain of the raw keys (checked per case): "tbl.*" in a Select and "*" / "tbl.*" in an Omit are not combined
+   with keys the model does not know (whether they name such a column is not settled by the property text) *)
+Definition raw_dom (s : schema) (selects omits : list sitem) (ps : list payload) : bool :=
+  forallb (fun p : payload => forallb (fun e => known s (fst e)) (snd p)) ps
+  || (forallb (fun it => match it with STabStar _ => false | _ => true end) selects
+      && forallb (fun it => match it with SStar | STabStar _ => false | _ => true end) omits).
 
 (* ---- inserts ------------------------------------------------------------------------------------ *)
 Definition spec_new_rows (s : schema) (table : string) (is_map : bool) (selects omits : list sitem)
